@@ -53,7 +53,9 @@ for w, c, out, err in children:
         if l.startswith("F "):
             failures.append((w, last, "oracle failure under Miri: " + l[2:300]))
     if rc != 0:
-        tail = " | ".join(open(err.name).read().splitlines()[-25:])[:1500]
+        lines_err = open(err.name).read().splitlines()
+        first = next((i for i, l in enumerate(lines_err) if l.startswith("error")), max(0, len(lines_err) - 12))
+        tail = " | ".join(l.strip() for l in lines_err[first:first + 12] if l.strip())[:1500]
         failures.append((w, last, "Miri stopped the interpreter (exit %d): %s" % (rc, tail)))
     os.remove(out.name)
     os.remove(err.name)
